@@ -26,7 +26,7 @@ RULES = {
     "R5": "native_anim_max_bytes is one global cell: all accessors read/write __class__._native_anim_max_bytes on the metaclass, "
           "the deleter restores the private default",
     "R6": "the class and instance forms of set_render_method perform the same checks in the same order against the receiver's "
-          "class's _render_methods",
+          "class's _render_methods; while a descriptor __get__ in utils.py tests the truth value of the instance, no image class defines __bool__ / __len__",
 }
 CM, IT, KT = "image/common.py", "image/iterm2.py", "image/kitty.py"
 
